@@ -95,7 +95,10 @@ static void observe(const char *op, bool ret)
     /* the name is only asked for where an object field is current (inside arrays it raises STATE by design) */
     if (ret && p->error_flags == BINSON_ERROR_NONE && p->current_state && p->current_state->current_name.bptr) {
         bbuf *nm = binson_parser_get_name(p);
-        fold(" name=%ld/%zu eqA=%d", nm ? (long) (nm->bptr - base) : -1L, nm ? nm->bsize : 0, binson_parser_string_equals(p, "a"));
+        /* probes in exact-size heap blocks: a comparison that reads past the terminator is a sanitizer report in the sanitizer builds */
+        static char *pa, *px;
+        if (!pa) { pa = (char *) malloc(2); pa[0] = 'a'; pa[1] = 0; px = (char *) malloc(2); px[0] = 'x'; px[1] = 0; }
+        fold(" name=%ld/%zu eqA=%d eqX=%d", nm ? (long) (nm->bptr - base) : -1L, nm ? nm->bsize : 0, binson_parser_string_equals(p, pa), binson_parser_string_equals(p, px));
     }
 }
 static void nav_doc(vf_gen *g, void *u)
@@ -131,7 +134,9 @@ static void nav_doc(vf_gen *g, void *u)
             bbuf raw = { 0, NULL };
             /* lookups only while the innermost level is an object (documented precondition) */
             bool inobj = p->depth > 0 && (p->state[p->depth - 1].flags & 3) && !(p->state[p->depth - 1].flags & 12);
-            if (op >= 6 && (!inobj || p->error_flags)) continue;
+            /* also inside an array that is the value of a field (the level has a name): undocumented use, but all pointers are valid */
+            bool innamedarr = p->depth > 0 && (p->state[p->depth - 1].flags & 12) && p->state[p->depth - 1].current_name.bptr != NULL;
+            if (op >= 6 && ((!inobj && !innamedarr) || p->error_flags)) continue;
             switch (op) {
             case 0: r = binson_parser_next(p); snprintf(name, sizeof name, "next"); break;
             case 1: r = binson_parser_go_into_object(p); snprintf(name, sizeof name, "into_obj"); break;
@@ -169,12 +174,12 @@ static void nav_doc(vf_gen *g, void *u)
 static void scenario_nav(void)
 {
     scenario_begin("navigation");
-    static const int cls[] = { LC_INT8, LC_STR, LC_OBJ, LC_ARR };
+    static const int cls[] = { LC_INT8, LC_STR, LC_STRNUL, LC_OBJ, LC_ARR };
     static vf_gen g;
     with_lookups = false;
     for (int root = VK_OBJ; root <= VK_ARR; root++) {
         memset(&g, 0, sizeof g);
-        g.root_kind = root; g.max_tokens = 3; g.classes = cls; g.nclasses = 4; g.names = vf_names_abc; g.nnames = 3; g.max_obj_depth = 4; g.cb = nav_doc;
+        g.root_kind = root; g.max_tokens = 3; g.classes = cls; g.nclasses = 5; g.names = vf_names_abc; g.nnames = 3; g.max_obj_depth = 4; g.cb = nav_doc;
         vf_gen_run(&g);
     }
     scenario_end("navigation");
